@@ -65,7 +65,7 @@ var words = []string{"", "a", "ab", "abc", "foo", "bar", "baz", "foobar", "web-1
 var keyWords = []string{"a", "b", "c", "foo", "bar", "x", "name", "tags", "meta", "n", "k1", "k2", "k3", "co:lon", "with space", "ünï", "0"}
 
 // DatumGens lists the constructors for Evaluate data.
-var DatumGens = []string{"doc", "docptr", "json", "jsonnum", "tmap:int", "tmap:slice", "tmap:map", "tmap:ptr", "tmap:any", "tmap:inner"}
+var DatumGens = []string{"doc", "docptr", "json", "jsonnum", "tmap:int", "tmap:slice", "tmap:map", "tmap:ptr", "tmap:any", "tmap:inner", "tmap:ikey", "tmap:nkey"}
 
 // CollGens lists the constructors for Filter.Execute containers.
 var CollGens = []string{"coll:slice", "coll:ptrslice", "coll:array", "coll:map", "coll:intmap", "coll:named", "coll:namedmap", "coll:jsonlist", "coll:anys", "coll:nilslice", "coll:empty", "coll:anymap", "coll:ptrmap", "coll:scalar"}
@@ -369,6 +369,19 @@ func genTMap(r *plan.Rand, kind string) interface{} {
 			m[k] = genInner(r, 1)
 		}
 		return map[string]interface{}{"m": m}
+	case "ikey":
+		// YAML-style map[interface{}]interface{}
+		m := map[interface{}]interface{}{}
+		for _, k := range keys {
+			m[k] = genScalarOrSmall(r)
+		}
+		return map[string]interface{}{"m": m}
+	case "nkey":
+		m := map[NamedStr]interface{}{}
+		for _, k := range keys {
+			m[NamedStr(k)] = genScalarOrSmall(r)
+		}
+		return map[string]interface{}{"m": m}
 	default: // any
 		m := map[string]interface{}{}
 		for _, k := range keys {
@@ -473,12 +486,33 @@ func genColl(r *plan.Rand, kind string) interface{} {
 func genMixed(spec string) interface{} {
 	i := strings.IndexByte(spec, ':')
 	fam, classes := spec[:i], spec[i+1:]
+	alt := false
+	if strings.HasSuffix(classes, ":alt") {
+		// same shape, but the last key has another name
+		alt = true
+		classes = strings.TrimSuffix(classes, ":alt")
+	}
 	m := map[string]interface{}{}
 	for j, c := range classes {
 		k := fmt.Sprintf("k%d", j)
+		if alt && j == len(classes)-1 {
+			k = "z9"
+		}
 		m[k] = MixedElem(fam, byte(c), j)
 	}
 	switch fam {
+	case "ieq":
+		im := map[interface{}]interface{}{}
+		for k, v := range m {
+			im[k] = v
+		}
+		return map[string]interface{}{"m": im, "top": 1}
+	case "neq":
+		nm := map[NamedStr]interface{}{}
+		for k, v := range m {
+			nm[NamedStr(k)] = v
+		}
+		return map[string]interface{}{"m": nm, "top": 1}
 	case "tslice":
 		tm := map[string][]int{}
 		for k, v := range m {
@@ -508,6 +542,8 @@ func genMixed(spec string) interface{} {
 // for the filter families, the filter expression evaluated on each element.
 var MixedFamilies = map[string]string{
 	"eq":      `v == 1`,
+	"ieq":     `v == 1`,
+	"neq":     `v == 1`,
 	"path":    `v.x == 1`,
 	"in":      `"a" in v`,
 	"re":      `v matches "^a"`,
@@ -522,7 +558,7 @@ var MixedFamilies = map[string]string{
 // MixedElem returns the element of class c (T, F or E) for family fam.
 func MixedElem(fam string, c byte, j int) interface{} {
 	switch fam {
-	case "eq":
+	case "eq", "ieq", "neq":
 		switch c {
 		case 'T':
 			return 1
